@@ -136,6 +136,11 @@ func lenClassW(n, w int) string {
 }
 
 func runC19(c *mon.Ctx) {
+	runC19body(c)
+	c.Case("retained-results", func() { c19kept.Flush(c) })
+}
+
+func runC19body(c *mon.Ctx) {
 	env := GetEnv()
 	base := NewPool(c.Rand("pool"), 48)
 	w := runtime.NumCPU()
@@ -202,6 +207,19 @@ func c19serialisers(c *mon.Ctx, g *engine, rng *rand.Rand, n, pattern, w int) {
 	if len(cb) != n || len(ub) != n {
 		c.Fail("wrong-length/batch-serialiser", fmt.Sprintf("batch serialisers returned %d/%d entries for %d elements", len(cb), len(ub), n), nil)
 		return
+	}
+	// the caller keeps the returned slices: after further batch calls they must still hold what they held
+	if n > 0 && rng.Intn(4) == 0 {
+		kcb, kub := cb, ub
+		wcb, wub := append([][32]byte(nil), cb...), append([][64]byte(nil), ub...)
+		c19kept.Keep(c, "batch-serialisers", func() string {
+			for i := range wcb {
+				if kcb[i] != wcb[i] || kub[i] != wub[i] {
+					return fmt.Sprintf("entry %d of a slice returned earlier by ElementsToBytes/BatchToBytesUncompressed changed", i)
+				}
+			}
+			return ""
+		})
 	}
 	res := make([]*fr.Element, n)
 	rs := make([]fr.Element, n)
@@ -329,3 +347,5 @@ func c19normalize(c *mon.Ctx, g *engine, rng *rand.Rand, n, pattern, w int) {
 	c.Count("positions_compared", int64(n))
 	c.Eval("BatchNormalize|"+cls, n > 0)
 }
+
+var c19kept = Retainer{Cap: 24}
